@@ -142,7 +142,12 @@ def le(a, b) -> Any:
         if e is UNSPEC:
             return UNSPEC
         return TRUE_OR_TYPE_ERROR if e else FALSE_OR_TYPE_ERROR
-    return UNSPEC
+    # the remaining pairs (nil, undefined, arrays, hashes, ranges against anything) have no order: "ordering comparisons between
+    # incompatible types raise a Liquid type error".  Equal operands may also satisfy <= / >= through their equality.
+    e = eq(a, b)
+    if e is UNSPEC:
+        return UNSPEC
+    return TRUE_OR_TYPE_ERROR if e else TYPE_ERROR
 
 
 def contains(a, b) -> Any:
